@@ -105,7 +105,19 @@ def gen(rng, knobs):
         clients = [{"script": [["send", json.dumps(["REQ", "big", {"kinds": [1]}])]], "slow": rng.random() < 0.8},
                    {"script": writes, "slow": False}]
         limit = 4
+    crowd = rng.random() < 0.02
+    if crowd:
+        # a long process lifetime: a crowd of connections, then some of them go on: CLOSE, REQ again, leave
+        pre = [h.regular(kind=1) for _ in range(2)]
+        clients = histgen.crowd(rng, h)
+        for cl in rng.sample(clients, min(len(clients), 12)) + clients[:2]:
+            sid = json.loads(cl["script"][0][1])[1]
+            cl["script"] += [["barrier"], ["send", json.dumps(["CLOSE", sid])], ["send", json.dumps(["REQ", "again", {"kinds": [1]}])]]
+            if rng.random() < 0.3:
+                cl["script"].append(["disconnect"])
+        limit = 4
     return {"backend": backend, "clients": clients, "preload": pre, "subscription_limit": limit,
+            **({"step_cap": 600000} if crowd else {}),
             "p_buffered": rng.choice([0.0, 0.0, 0.3, 0.8]),
             "faults": sorted(rng.sample(range(3, 90), rng.choice([1, 2]))) if (backend == "sql" and rng.random() < 0.2) else [],
             "storage_opts": histgen.pool_knob(rng, backend),
